@@ -4,6 +4,7 @@ import random
 
 from e2e.model import Model
 from e2e import gen
+from e2e.gen import STD as STD_METHODS
 
 
 def _registered_components(spec, m, kinds=("handlers", "mws", "fallbacks")):
@@ -53,6 +54,26 @@ def _nested_bps(spec):
 
 # ---------------------------------------------------------------------------------------------- operators
 # each returns a dict describing what was planted, or None when not applicable to this spec
+
+def _used_ctors(spec, m):
+    """Constructor registrations that some registered request-time component actually resolves to (an override that
+    nothing below it needs is merely an unused constructor: the compiler never looks at its inputs)."""
+    out = set()
+    for k, xid, x in _registered_components(spec, m, ("handlers", "mws", "fallbacks", "obs")):
+        scope = m.reg[xid][0]
+        frontier = [t for (t, _) in x.get("ins", [])]
+        seen = set()
+        while frontier:
+            t = frontier.pop()
+            if t in seen:
+                continue
+            seen.add(t)
+            cid = m.resolve(scope, t)
+            if cid:
+                out.add(cid)
+                frontier += [u for (u, _) in m.ctor_inputs(cid, t)]
+    return out
+
 
 def op_missing_constructor(rng, spec, m):
     used = _used_types(spec, m)
@@ -183,8 +204,9 @@ def op_singleton_by_value_never_clone(rng, spec, m, only_derived=False):
     used = _used_types(spec, m)
     consumers = [("handler", xid, x) for (k, xid, x) in _registered_components(spec, m, ("handlers",))]
     consumers += [(x["kind"], xid, x) for (k, xid, x) in _registered_components(spec, m, ("mws",))]
+    used_ctors = _used_ctors(spec, m)
     consumers += [("ctor:" + c["lc"] + (":generic" if c.get("generic_param") else ""), cid, c) for cid, c in spec["ctors"].items()
-                  if c["lc"] != "singleton" and c["out"] in used or (c.get("generic_param") and any(u.split("<")[0] == c["out"].split("<")[0] for u in used))]
+                  if c["lc"] != "singleton" and cid in used_ctors]
     if only_derived:
         # consumers whose component is derived by the compiler (a wrapping middleware once its Next<C> is bound, a
         # specialisation of a generic constructor)
@@ -314,8 +336,11 @@ def op_route_overlap(rng, spec, m):
     if variant == "any_vs_specific":
         if h["methods"] in ("ANY", "ANY_ALL"):
             nh["methods"] = ["GET"]
+        elif all(mm not in STD_METHODS for mm in h["methods"]):
+            # `allow(any_method)` alone covers the standard methods only: it does not overlap with `PURGE`
+            nh["methods"] = "ANY_ALL"
         else:
-            nh["methods"] = "ANY"
+            nh["methods"] = rng.choice(["ANY", "ANY_ALL"])
     elif variant == "catchall_vs_param":
         if "{" not in h["path"] or "{*" in h["path"]:
             return None
